@@ -28,6 +28,7 @@ type replayTemplate struct {
 	PackageDir string            `json:"package_dir"`
 	Template   string            `json:"template"` // file name next to the json
 	Values     map[string]string `json:"values"`   // placeholder -> contract expression | bytes(expr,N)
+	Probe      string            `json:"probe"`    // optional test file (no placeholders): small exhaustive domain, used when the solver gives no values
 	dir        string
 }
 
@@ -140,7 +141,7 @@ func (p *Prog) replayObligation(verifDir, repo, id string, r *FuncResult, ob *Ob
 		}
 	}
 	if vals == nil {
-		return false, "replay: the solver gave no values for the template inputs"
+		return tpl.probe(repo, "replay: the solver gave no values for the template inputs")
 	}
 	// fill the template
 	src, err := os.ReadFile(filepath.Join(tpl.dir, tpl.Template))
@@ -171,6 +172,17 @@ func (p *Prog) replayObligation(verifDir, repo, id string, r *FuncResult, ob *Ob
 	for name, lit := range inputs {
 		text = strings.ReplaceAll(text, "{{"+name+"}}", lit)
 	}
+	ok, out := runReplayTest(repo, tpl.PackageDir, text)
+	ib, _ := json.Marshal(inputs)
+	report := "inputs from the solver model: " + string(ib) + "\n" + out
+	if !ok {
+		return tpl.probe(repo, report)
+	}
+	return true, report
+}
+
+// runReplayTest injects text as an in-package test and runs it against the real code.
+func runReplayTest(repo, pkgDir, text string) (bool, string) {
 	scratch, err := os.MkdirTemp("", "kvc-replay-")
 	if err != nil {
 		return false, "replay: " + err.Error()
@@ -178,18 +190,32 @@ func (p *Prog) replayObligation(verifDir, repo, id string, r *FuncResult, ob *Ob
 	defer os.RemoveAll(scratch)
 	tf := filepath.Join(scratch, "zz_kvc_replay_test.go")
 	os.WriteFile(tf, []byte(text), 0644)
-	ov := map[string]map[string]string{"Replace": {filepath.Join(repo, tpl.PackageDir, "zz_kvc_replay_test.go"): tf}}
+	ov := map[string]map[string]string{"Replace": {filepath.Join(repo, pkgDir, "zz_kvc_replay_test.go"): tf}}
 	ovb, _ := json.Marshal(ov)
 	ovf := filepath.Join(scratch, "ov.json")
 	os.WriteFile(ovf, ovb, 0644)
-	cmd := exec.Command("go", "test", "-overlay", ovf, "-vet=off", "-count=1", "-timeout", "60s", "-run", "TestKvcReplay", "./"+tpl.PackageDir+"/")
+	cmd := exec.Command("go", "test", "-overlay", ovf, "-vet=off", "-count=1", "-timeout", "30s", "-run", "TestKvcReplay", "./"+pkgDir+"/")
 	cmd.Dir = repo
 	cmd.Env = append(os.Environ(), "GOFLAGS=-mod=mod", "GOPROXY=off")
 	outb, _ := cmd.CombinedOutput()
 	out := string(outb)
-	ib, _ := json.Marshal(inputs)
-	report := "inputs from the solver model: " + string(ib) + "\n" + truncate(out, 4000)
-	return strings.Contains(out, "KVC-REPLAY-VIOLATION"), report
+	if strings.Contains(out, "panic: test timed out") {
+		return true, "the real code did not terminate on the replay input within the time limit:\n" + truncate(out, 2000)
+	}
+	return strings.Contains(out, "KVC-REPLAY-VIOLATION"), truncate(out, 4000)
+}
+
+// probe: the template's own small exhaustive input domain, when the solver produced no usable values.
+func (t *replayTemplate) probe(repo, why string) (bool, string) {
+	if t.Probe == "" {
+		return false, why
+	}
+	src, err := os.ReadFile(filepath.Join(t.dir, t.Probe))
+	if err != nil {
+		return false, why + "; probe: " + err.Error()
+	}
+	ok, out := runReplayTest(repo, t.PackageDir, string(src))
+	return ok, why + "\nBOUNDED PROBE (the template's exhaustive small input domain, not the solver's model):\n" + out
 }
 
 // parseGetValue: values of a (get-value (t1 ... tn)) answer, in order.
